@@ -83,6 +83,7 @@ class Executor(object):
         self.events = []
         self.assume_feasible = False
         self.debug_merge = None
+        self.debug_ic = bool(__import__('os').environ.get('DEBUG_IC'))
 
     # ---------------------------------------------------------------- memory
     def new_obj(self, st, value, tag=''):
@@ -259,14 +260,44 @@ class Executor(object):
         r = self.feas_cache.get(key)
         if r is None:
             self.stats['feas_queries'] += 1
-            self.solver.push()
+            sv = z3.Solver()
+            sv.set('timeout', 20000)
             for x in pc:
-                self.solver.add(x)
-            self.solver.add(c)
-            res = self.solver.check()
-            self.solver.pop()
+                sv.add(x)
+            sv.add(c)
+            res = sv.check()
             r = (res != z3.unsat)
             self.feas_cache[key] = r
+        return r
+
+    def implied_const(self, st, v, w, sg):
+        """if the path condition forces v to a single value return it (two solver queries), else None"""
+        t = tobv(v, w)
+        key = ('ic', tuple(x.get_id() for x in st.pc), t.get_id())
+        if key in self.feas_cache:
+            return self.feas_cache[key]
+        self.stats['feas_queries'] += 2
+        s = z3.Solver()
+        s.set('timeout', 20000)
+        for x in st.pc:
+            s.add(x)
+        r = None
+        t0 = time.time()
+        r1 = s.check()
+        r2 = None
+        if r1 == z3.sat:
+            c = s.model().eval(t, model_completion=True)
+            s = z3.Solver()      # fresh solver: z3's incremental mode is far slower on bit-vector problems
+            s.set('timeout', 60000)
+            for x in st.pc:
+                s.add(x)
+            s.add(t != c)
+            r2 = s.check()
+            if r2 == z3.unsat:
+                r = canon(c.as_long(), w, sg)
+        if self.debug_ic:
+            print('implied_const', r1, r2, r, '%.2fs' % (time.time() - t0))
+        self.feas_cache[key] = r
         return r
 
     # ---------------------------------------------------------------- state merging
@@ -546,7 +577,22 @@ class Executor(object):
                 elif y < 0:
                     self.oblige('panic', st, True, 'negative shift amount', ins.get('pos', ''))
                     raise PathDead()
+            if bop == '*':
+                # a bit-vector (non linear-form) factor that the path condition pins to one value is folded
+                x, y = force(x), force(y)
+                if isinstance(x, z3.ExprRef) and isinstance(y, int):
+                    cx = self.implied_const(st, x, w, sg)
+                    if cx is not None:
+                        x = cx
+                elif isinstance(y, z3.ExprRef) and isinstance(x, int):
+                    cy = self.implied_const(st, y, w, sg)
+                    if cy is not None:
+                        y = cy
             if bop in ('/', '%'):
+                if not isinstance(force(y), int):
+                    cy = self.implied_const(st, force(y), w, sg)
+                    if cy is not None:
+                        y = cy
                 if isinstance(force(y), int):
                     if y == 0:
                         self.oblige('div0', st, True, 'integer divide by zero', ins.get('pos', ''))
